@@ -130,6 +130,8 @@ func intLitStr(s string) string {
 // ---- Theory: global per VC-generation run (one per function under verification)
 
 type Theory struct {
+	cps      []cpEntry
+	globDone map[string]bool
 	sorts     []string          // datatype declarations in order
 	sortSeen  map[string]bool   // by SMT name
 	structOf  map[Sort]*structInfo
@@ -158,7 +160,7 @@ type structField struct {
 }
 
 func newTheory(ex *ExternSpecs) *Theory {
-	return &Theory{sortSeen: map[string]bool{}, structOf: map[Sort]*structInfo{}, declSeen: map[string]bool{},
+	return &Theory{sortSeen: map[string]bool{}, structOf: map[Sort]*structInfo{}, declSeen: map[string]bool{}, globDone: map[string]bool{},
 		strLits: map[string]string{}, tags: map[string]int{}, externs: ex, arraySeen: map[string]bool{}}
 }
 
@@ -197,8 +199,31 @@ func (th *Theory) declare(name string, decl string) {
 }
 
 func (th *Theory) declConst(name string, s Sort) string {
+	first := !th.declSeen[name]
 	th.declare(name, fmt.Sprintf("(declare-const %s %s)", name, s))
+	if first {
+		// every version of a field heap agrees with the initialiser on never-assigned fields of global objects
+		for _, e := range th.cps {
+			if strings.HasPrefix(name, e.prefix) && len(name) > len(e.prefix) && strings.ContainsRune("@!$", rune(name[len(e.prefix)])) {
+				th.declConst(e.glob, SRef)
+				th.axioms = append(th.axioms, fmt.Sprintf("(= (select %s %s) %s)", name, e.glob, e.value))
+			}
+		}
+	}
 	return name
+}
+
+type cpEntry struct{ prefix, glob, value string }
+
+// installConstPointees: see World.ConstPointees.
+func (th *Theory) installConstPointees(w *World) {
+	for _, c := range w.ConstPointees {
+		th.cps = append(th.cps, cpEntry{
+			prefix: sanitize(fieldHeap(th.sortOf(c.Struct), c.Field)),
+			glob:   "glob$" + sanitize(c.Global.Pkg().Path()+"."+c.Global.Name()),
+			value:  c.Value,
+		})
+	}
 }
 
 func (th *Theory) freshConst(base string, s Sort) string {
